@@ -166,7 +166,8 @@ class EMut(Engine):
             'call AND at least one rejected call / producer fault / cache clear / option change; distinct = distinct '
             'event-list digest.')
     stub_components = ['FaultyIterable (caller-side producer of positions / byte sizes / bools that raises at element k)']
-    assumptions = ['msb0 only (options.lsb0 stays False; C12 owns lsb0)',
+    assumptions = ['a fifth of the runs execute under options.lsb0 = True, where the specification is the msb0 specification on the '
+                   'bit-reversed content and operands, reversed back (toggling the option mid-run is C12 territory)',
                    'pos of a BitStream is ignored (C06 owns it); an explicit pos is always passed to insert/overwrite '
                    'except in the low-weight pos=None form, which takes the current pos as an input',
                    'exception class inside {ValueError, IndexError, TypeError, bitstring.Error} is unconstrained except '
@@ -175,7 +176,7 @@ class EMut(Engine):
                        'cache_clear', 'option:bytealigned-decided-replace', 'overwrite:extends', 'replace:overlap-skipped',
                        'replace:multi', 'byteswap:repeats>1', 'byteswap:struct-string', 'setslice:int-limit',
                        'setslice:negative-step', 'len:crosses-64', 'run:nofault', 'run:fault', 'run:avoid',
-                       'cls:BitArray', 'cls:BitStream', 'insert:from-end', 'shift:beyond-len', 'rotate:subrange')
+                       'cls:BitArray', 'cls:BitStream', 'insert:from-end', 'shift:beyond-len', 'rotate:subrange', 'run:lsb0')
 
     # ---------------------------------------------------------------------------------------------------
     def plan(self, tier, base_seed):
@@ -201,6 +202,7 @@ class EMut(Engine):
             'p_opt': g.pick([0.0, 0.04, 0.1]),
             'p_wild': g.pick([0.1, 0.3, 0.5]) if fault else 0.15,
             'ba0': g.chance(0.15),
+            'lsb0': g.chance(0.2),
         }
         return cfg
 
@@ -221,6 +223,11 @@ class EMut(Engine):
         self._last = None
         self._rep_info = None
         self.B.options.bytealigned = self.ba
+        self.lsb0 = bool(cfg.get('lsb0', False))
+        self._mirror = False
+        if self.lsb0:
+            self.B.options.lsb0 = True
+            self.probe('run:lsb0')
         self.probe('cls:' + self.cname)
         self.probe('run:fault' if cfg.get('fault', True) else 'run:nofault')
         if cfg.get('avoid'):
@@ -277,6 +284,8 @@ class EMut(Engine):
         b = o.get('b', '')
         if not isinstance(b, str) or set(b) - {'0', '1'}:
             return None, False, False
+        if self._mirror:
+            b = b[::-1]
         if f == 'faulty':
             return b, o.get('k') is not None, False
         return b, False, False
@@ -374,7 +383,37 @@ class EMut(Engine):
     # ---------------------------------------------------------------------------------------------------
     # the specification
     # ---------------------------------------------------------------------------------------------------
+    _MIRROR_SWAP = {'ilshift': 'irshift', 'irshift': 'ilshift', 'rol': 'ror', 'ror': 'rol'}
+
     def _spec(self, ev):
+        """msb0: the sequence-level specification.  lsb0 (a per-run knob): the same specification applied to the bit-reversed
+        content and operands with the same position arguments, reversed back - the documented meaning of the operation
+        under options.lsb0; shifts and rotations keep their direction relative to the most significant end."""
+        if not self.lsb0:
+            return self._spec_msb0(ev)
+        op = ev.get('op')
+        if op in ('insert', 'overwrite') and ev.get('pos') is None:
+            return Exp(skip='current stream position as an input: msb0 runs only')
+        if op == 'setslice' and ev.get('c') == -1 and isinstance(ev.get('v'), dict) and ('int' in ev['v'] or ev['v'].get('f') == 'int'):
+            return Exp(skip='whole-value integer on a reversed slice: msb0 runs only')
+        saved = self.M
+        self.M = saved[::-1]
+        self._mirror = True
+        try:
+            ev2 = dict(ev, op=self._MIRROR_SWAP[op]) if op in self._MIRROR_SWAP else ev
+            e = self._spec_msb0(ev2)
+        finally:
+            self.M = saved
+            self._mirror = False
+        if e.skip:
+            return e
+        e.ok = [(m[::-1], r) for m, r in e.ok]
+        e.rstate = tuple(m[::-1] for m in e.rstate)
+        e.frame = None
+        e.tag = ('lsb0' if e.tag in (None, '-') else e.tag + ',lsb0')
+        return e
+
+    def _spec_msb0(self, ev):
         fn = getattr(self, '_sp_' + str(ev.get('op')), None)
         if fn is None:
             return Exp(skip='unknown op')
@@ -551,6 +590,8 @@ class EMut(Engine):
                 if not (-(1 << (k - 1)) <= x < (1 << k)):
                     return self._raise(ANY, tag=tag if tag.endswith('differs') else None)
                 bits = format(x & ((1 << k) - 1), f'0{k}b')
+                if self._mirror:
+                    bits = bits[::-1]       # an integer is a whole value: its encoding is the same in both modes
                 L = list(M)
                 L[sl] = list(bits)
                 return Exp(ok=[(''.join(L), NONE)], frame=(fr[0], fr[1], False), tag=tag)
